@@ -6,6 +6,10 @@ HERE = os.path.dirname(os.path.abspath(__file__))
 TECH = "deterministic simulation with fault injection: seeded runs of the real library on a simulated block device (SimDisk); "
 
 CHECKS = {
+ "C17": dict(level="exploration", design="§5 C17, §2.6",
+   text="One opened squashfs image (files sharing fragment and metadata blocks, four compressors) is read by 2..8 (quick) / 2..32 (thorough) tasks with their own handles (ReadFile, ReadDir, Stat, Seek+partial Read) while another task calls SetCacheSize, with cache sizes 0, 1, 2, 4 blocks and default. The tasks are real goroutines run one at a time by a seeded cooperative scheduler (uniform random or PCT priorities) that decides who proceeds at every lock request, lock release and before/after every device ReadAt; Lock/Unlock call sites of the squashfs package are routed to the scheduler's lock model by a build-time go/ast rewrite through go build -overlay (no change in /repo). Oracles: every task's bytes equal the sequential reference, all tasks finish (lock-model deadlock detection, step budget), LRU map/list invariants hold whenever no lock is held, and in a second wave the same schedules run in a -race build whose token hand-off is uninstrumented, so the Go race detector reports data races for the schedule being run.",
+   note="Seeded search over schedules, not enumeration. Locks are modelled from the rewritten call sites; a blocking primitive that is not a mutex would be invisible (none exists). GetCacheSize is not called concurrently (outside the statement). Replay files carry the recorded decision list.",
+   technique=TECH+"seeded cooperative scheduler with lock model (PCT/uniform), schedule replay, race detector on uninstrumented token hand-off"),
  "C04": dict(level="exploration", design="§5 C04",
    text="Seeded histories (mkdir, create, writes at start/inside/EOF/EOF+gap in several steps, append, symlinks around the 60-byte inline limit, remove, chmod with all 12 bits, chown over the 16/32-bit ranges, chtimes, many files per directory, interleaved appends that fragment extents, reopen) on ext4 volumes with 1 KiB/4 KiB blocks, with/without journal and metadata checksums, at start 0 / 1 MiB / 5 GiB on the simulated device; after every operation listings, contents, link targets and the attributes the history set are compared with an in-memory tree, live, through the writing handle and after re-opening from the bytes.",
    note="Seeded sampling. Attributes are compared only once the history has set them; a path touched by a refused call is excluded afterwards; truncating open is not in the statement and not issued.",
